@@ -170,6 +170,22 @@ class Runtime:
         if self.pump_task.done():
             raise common.MachineryError("proxy callback pump died: %r" % (self.pump_task.exception(),))
 
+    async def idle_poll(self):
+        """HttpFlow!IdlePoll: the real _pump_callbacks loop wakes up and gets queue.Empty (the gate
+        is shut, so also while an item waits), one whole iteration including its finally."""
+        q = self.ctx.to_proxy_queue
+        await self.start_pump()
+        q.budget = 0
+        p = q.polls
+        for _ in range(20000):
+            if q.polls >= p + 2:
+                break
+            await asyncio.sleep(0.0003)
+        else:
+            raise common.MachineryError("proxy callback pump does not poll")
+        if self.pump_task.done():
+            raise common.MachineryError("proxy callback pump died: %r" % (self.pump_task.exception(),))
+
     def reset(self):
         self.ctx.from_proxy_queue.clear()
         self.ctx.to_proxy_queue.clear()
@@ -403,19 +419,29 @@ class World:
             return "orig"
         if url == ADDON_URL:
             return "addon"
-        if url in fl.redirect_urls:
-            return "handler"
+        if fl.redirect_urls and url == fl.redirect_urls[0]:
+            return "handler"            # the original url on the wrapped cap's host
+        if fl.redirect_urls and url == fl.redirect_urls[1]:
+            return "handlerAddon"       # the addon's url on the wrapped cap's host
         return "other:" + str(url)
 
     @staticmethod
-    def resp_class(resp):
+    def resp_class(resp, fl=None):
         if resp is None:
             return "none"
+        if resp.status_code == 307:
+            loc = resp.headers.get("Location")
+            urls = getattr(fl, "redirect_urls", ()) or (None, None)
+            if loc == urls[0]:
+                return "redir"
+            if loc == urls[1]:
+                return "redirAddon"
+            return "other:307 to %s" % loc
         if resp.headers.get(SERVER_MARK):
             return "server"
         if resp.status_code == 299 and resp.headers.get("X-Verif-Addon") == "1" and resp.content == b"ADDON":
             return "addon"
-        if resp.status_code in (307, 500, 200) and not resp.headers.get("X-Verif-Addon"):
+        if resp.status_code in (500, 200) and not resp.headers.get("X-Verif-Addon"):
             return "handler"
         return "other:%s" % resp.status_code
 
@@ -446,7 +472,7 @@ class World:
                 r = -1          # a region of another session
             cap = [self._capkind(cd.cap_name, cd.type.name), s, r]
         return cap + [bool(hf.request_injected), bool(hf.response_injected), bool(hf.can_stream), bool(hf.from_browser),
-                      self.url_class(hf.request.url, fl), self.resp_class(hf.response)]
+                      self.url_class(hf.request.url, fl), self.resp_class(hf.response, fl)]
 
     def _project_proxy(self, f, fl):
         md = f.metadata
@@ -459,7 +485,7 @@ class World:
             cap = [self._capkind(ser.cap_name, ser.type), s, r]
         return cap + [bool(md.get("request_injected", False)), bool(md.get("response_injected", False)),
                       bool(md.get("can_stream", True)), bool(md.get("from_browser", False)),
-                      self.url_class(f.request.url, fl), self.resp_class(f.response)]
+                      self.url_class(f.request.url, fl), self.resp_class(f.response, fl)]
 
 
 def digest_flow(f):
@@ -746,6 +772,7 @@ async def _run_path(path, n_addons, compare_from=None, brand_new=False):
         except Exception as e:   # the implementation raised where the model has no exception: an observation
             out = {"exc": False, "res": "impl raised %s: %s" % (type(e).__name__, str(e)[:100])}
         if compare_from is not None and i >= compare_from or i == len(path) - 1:
+            await world.rt.idle_poll()      # IdlePoll is enabled everywhere and changes nothing
             results.append((i, fd.observe(), out, list(fd.put_log), hooks))
     return results
 
@@ -804,7 +831,7 @@ def _replay_chunk(edge_ids):
 # ----------------------------------------------------------------------------------------
 INVARIANTS = ["AtMostOnce", "BackUnlessOwned", "OwnedNotBack", "ResumedIffBack", "TakenExclusive", "Causal",
               "HeldUntilApplied", "RoutingStable", "FlagsStable", "AttributionKept", "AppliedAttribution",
-              "InjectedSurvives", "GoneReadsNone"]
+              "InjectedSurvives", "RedirectFollowsRewrite", "GoneReadsNone"]
 
 
 def _tla_set(xs):
@@ -1105,6 +1132,12 @@ async def _random_run(seed, n_flows, n_addons=3):
             rec.events.append({"ev": "Apply", "bad": bad, "item": item,
                                "px": [bool(fd.flow.intercepted), world.project_proxy(fd.flow, fd)],
                                "pd": digest_flow(fd.flow)})
+        if rng.random() < 0.25:
+            # the proxy-side pump wakes up with nothing to apply: nothing may change for any flow
+            await world.rt.idle_poll()
+            for r2 in recs:
+                if r2.fd.flow is not None and r2.phase != "dead":
+                    r2.events.append({"ev": "IdlePoll", "px": [bool(r2.fd.flow.intercepted), world.project_proxy(r2.fd.flow, r2.fd)]})
     return [(r.fd.tgt, r.events) for r in recs], foreign
 
 
